@@ -8,7 +8,7 @@ use ndarray_stats::QuantileExt;
 use num_traits::{Num, ToPrimitive};
 use rayon::prelude::*;
 use rustfft::{num_complex::Complex, FftPlanner};
-use std::{cmp::Ordering, error::Error};
+use std::error::Error;
 
 const ALPHA: f32 = 0.01;
 
@@ -308,10 +308,9 @@ impl MultiChainTracker {
 pub fn basic_stats(name: &str, mut data: Array1<f32>) -> BasicStats {
     data.as_slice_mut()
         .unwrap()
-        .sort_by(|a, b| match b.partial_cmp(a) {
-            Some(x) => x,
-            None => Ordering::Equal,
-        });
+        // A total order: `partial_cmp` with NaN mapped to `Equal` is not one, and `sort_by` panics
+        // on it for more than 20 values. NaNs sort to the ends, so they surface as NaN min / max.
+        .sort_by(|a, b| b.total_cmp(a));
     let (min, median, max) = (
         *data
             .last()
